@@ -13,6 +13,7 @@
 -/
 import MdModel.SymParse
 import MdProofs.Lemmas.SymStream
+import MdProofs.Lemmas.SymNoPanic
 namespace MdModel.Sym
 open MdModel MdModel.Stream MdModel.Gen.SymConsts
 
@@ -65,5 +66,40 @@ theorem window_bounded_final (input : Bytes) (sched : List Nat) (out : Out PStat
 example : ∃ s, Reach MAX_BUFFER_CAPACITY (⟨fun _ w => .ok w.length (), id, fun _ => 0⟩ : Ops Unit)
     (init INITIAL_BUFFER_CAPACITY () [70, 10] []) s ∧ s.totalConsumed = 2 :=
   ⟨_, Reach.step Reach.refl rfl, rfl⟩
+
+
+/-! ## "never panics" -/
+
+/-- the symbol parser, as the loop sees it, never panics, never reports more bytes than the window
+    holds, and keeps the invariant `PInv` (STACK WIN sizes are `u32`s, every stored range is a
+    valid `Range`) under which none of its panic sites is reachable -/
+theorem symOps_safe : ParserSafe symOps PInv :=
+  ⟨fun st w h => parseMore_ok st w h, fun _ h => h.congr rfl rfl rfl rfl⟩
+
+/-- `SymbolFile::parse` never takes a panic outcome — for every input and every chunk schedule:
+    neither the loop (`&input[..consumed]`, `parse_more`: `insert_win_stack_info`'s `as u32` +
+    `unwrap`, `finish_item`'s `into_rangemap_safe().unwrap()`, `Range::new`, the model's own loop
+    fuel) nor the final `parser.finish()` (four more `into_rangemap_safe().unwrap()`). -/
+theorem parse_no_panic (input : Bytes) (sched : List Nat) :
+    (∃ f, (parseResult input sched).1 = .ok f) ∨ (∃ k l, (parseResult input sched).1 = .err k l) := by
+  obtain ⟨⟨out, sf⟩, hr⟩ := parse_terminates input sched
+  have hsafe := run_safe MAX_BUFFER_CAPACITY symOps PInv symOps_safe _ _ out sf PInv.init
+    (by unfold parseStream at hr; exact hr)
+  unfold parseResult
+  rw [hr]
+  cases out with
+  | ok ps =>
+    obtain ⟨f, hf⟩ := finish_ok ps (hsafe.2 ps rfl)
+    exact Or.inl ⟨f, by simp only [hf]⟩
+  | err k l => exact Or.inr ⟨k, l, rfl⟩
+  | panic e => exact absurd rfl (hsafe.1 e)
+
+/-- **C09, first sentence**: for every byte string and every chunk schedule, parsing returns a
+    symbol table or a parse error — it is never a panic and never out of fuel. -/
+theorem parse_total (input : Bytes) (sched : List Nat) :
+    (∀ e, (parseResult input sched).1 ≠ .panic e) ∧ (parseResult input sched).1 ≠ .fuel := by
+  rcases parse_no_panic input sched with ⟨f, h⟩ | ⟨k, l, h⟩
+  · rw [h]; exact ⟨fun e he => (by cases he), fun he => (by cases he)⟩
+  · rw [h]; exact ⟨fun e he => (by cases he), fun he => (by cases he)⟩
 
 end MdModel.Sym
